@@ -247,6 +247,24 @@ def run(ck, facts, tier):
         else:
             ck.violation(R, "fmt:collect+stubs+items", d.where(), "Display must write collect_unrecorded_ids stubs and the recorded items")
 
+    R = "C23.IDCOLLECT-DESCENDS"
+    ck.rule(R, "K3 (must-pass-through): IdCollector::visit_ty (which finds every item mentioned by a recorded item, so that it gets a stub) "
+               "reaches ty.super_visit_with on every path to its return - whatever it has recorded before: the arguments of a second "
+               "mention `Wrap<Meters>` of an already seen `Wrap<..>` name items of their own; visit_where_clause and visit_const likewise")
+    from kit import all_returns_pass as _arp
+    for meth in ("visit_ty", "visit_where_clause"):
+        key = "<chalk_solve::logging_db::id_collector::IdCollector as chalk_ir::visit::TypeVisitor>::" + meth
+        vb = facts.body(key)
+        if vb is None:
+            if meth == "visit_ty":
+                ck.violation(R, "missing-anchor:IdCollector::visit_ty", "", "function not found")
+            continue
+        sv = vb.cfg.call_blocks(("TypeSuperVisitable::super_visit_with", "super_visit_with"))
+        if not sv:
+            ck.violation(R, "IdCollector::%s:descends" % meth, vb.where(), "the visitor never descends into the components")
+        else:
+            _arp(ck, R, vb, [0], sv, "IdCollector::%s:every-return-after-super_visit_with" % meth)
+
     R = "C23.ONE-NAME-TABLE"
     ck.rule(R, "K4 (who-may-construct): one log has one table of printed names - WriterState::new (which creates the IdAliasStore that "
                "tells apart items with the same name, `Assoc` / `Assoc_1`) is called only by LoggingRustIrDatabase::new inside the "
